@@ -64,6 +64,8 @@ func TestC16(t *testing.T) {
 			if c.Argv2 == nil {
 				c.Argv2 = []string{}
 			}
+		} else if chance(rt, 1, 2, "sub") {
+			c.Sub = true // a second Run is possible on root-only applications only
 		}
 		Report(rt, "C16", "implicit", c, CheckC16(c, st))
 	})
